@@ -9,8 +9,12 @@ MC      MC_Tsig: chains of <= 4 envelopes (real octets, MacModel = injective con
         envelope that is not the honest one; unsigned never accepted; layout round trip; 48-bit window
         arithmetic.
 CHAINS  the same run exports every behaviour (L, faults, verdicts) -> `tsig replay`: Transfer.In over an
-        in-memory connection (timers-only switch of inAxfr, running MAC of Transfer.ReadMsg), plus
-        Transfer.ReadMsg / Conn.WriteMsg+ReadMsg for single envelopes.
+        in-memory connection (timers-only switch of inAxfr / inIxfr, running MAC of Transfer.ReadMsg), plus
+        Transfer.ReadMsg / Conn.WriteMsg+ReadMsg for single envelopes.  The verdicts do not depend on what the
+        envelopes carry, the receiver's timers-only switch does: every behaviour is driven through the transfer
+        LAYOUTS a peer may choose -- AXFR / IXFR request x opening SOA with data / alone (one-answer format) x
+        closing SOA with data / alone: all eight for behaviours with <= 1 fault, the plain one + one in rotation for
+        pairs of faults (thorough: all); finding keys tsig/chain:in[:ixfr][:soa-alone-first][:soa-alone-last]:...
 GEN     `tsig msgs` (real Pack) -> Gen_Tsig: message x 7 algorithm spellings x 2 keys x 3 request MACs x
         timers-only x original id =/# id x 4 error/other-data cases x 4 fudge/time cases -> `tsig replay`:
         real TsigGenerate MAC = HMAC(spec digest), output = spec layout; real verification
@@ -22,6 +26,21 @@ TV      `tsig record alter`: messages signed by the real code (every algorithm s
         (wall clock, times >= 300 s from the window edges) -> Trace_Tsig emits what the specification reads
         in each octet string (digest input, MAC, time verdict) -> `tsig judge` fills in crypto/hmac and compares
         the verdicts both ways.
+        Stubs: besides explicit time / fudge 300, every run signs with the "fill in" stubs (Fudge 0, TimeSigned 0, both)
+        and a one-second window (Fudge 1).  Whatever the signer picks is read by the specification in the octets it
+        EMITTED: the MAC must cover the timers on the wire, the window is the one on the wire (clock at time +/- fudge,
+        +/- fudge + 1 of the wire values), and the time signed must not lie more than a second before the moment the
+        message was handed to the signer (`handed' -> Tsig!SignedNotBefore; key tsig/sign:stale-time-signed:<via>).
+TV conn the same recorder, client connections (Tsig!ConnWrite / ConnReadDigest; cw / cr events, Trace_Tsig carries the
+        connection's state): one dns.Conn value (TsigSecret / TsigProvider; stream and datagram), 1-3 signed transactions
+        on it, 1-4 messages read per transaction -- junk with another ID, the request reflected, a late answer to the
+        previous request, a wrongly keyed stray, then the answer (right / wrong secret / altered MAC / unsigned / chained
+        on nothing / the request reflected) -- through Conn.WriteMsg + ReadMsg per message and through
+        Client.ExchangeWithConn (datagram: reads on past other IDs; the result is attributed to the datagram with its ID).
+        Every read is judged against the MAC of the request of ITS transaction as written, full variables: reading does
+        not move the state.  Noted, not judged (outside the statement, see Tsig.tla): the MAC of the second / third request
+        written on the same Conn value covers the previous request's MAC (evidence note
+        requests_on_a_reused_conn_whose_mac_covers_an_earlier_request_mac_recorded).
 
 Finding of this check on the pinned tree, since repaired in /repo (c2100c2; `fixed:` in known-findings.txt):
   tsig/verify:accepts-invalid:tsig-class-altered
@@ -38,7 +57,8 @@ TV srv  `tsig record server`: real dns.Servers on in-memory TCP listeners, one p
         recorded, not judged) and an in-memory datagram socket (TsigProvider); requests under two keys; 2-5 transactions back to back on every TCP connection, datagrams one by one;
         requests signed (5 algorithms) / signed with a wrong secret / unsigned / right MAC but time 3000 s outside the
         window (BADTIME) / MAC field cut to half (BADTRUNC); the handler signs its TSIG error reply through WriteMsg; handlers answering with one message, with
-        2-4 messages (w.TsigTimersOnly(true) after each) or with Transfer.Out -> Trace_Tsig restarts the session at every
+        2-4 messages (w.TsigTimersOnly(true) after each) or with Transfer.Out (the clock noted when each envelope is handed to
+        Out; ONE verified transfer per run hands its last envelope over 2.1 s late: time signed = time of signing, `handed') -> Trace_Tsig restarts the session at every
         request -> `tsig judge`: TsigStatus seen by the handler = the specification's verdict on the request; every response's
         MAC = HMAC over the specification's digest input (first response of every transaction: that request's MAC + full
         variables; later ones: previous MAC + timers only).  Judged: answers to verified requests and the error responses
@@ -60,6 +80,12 @@ Mutants (checks/mutants/C11, each must give exit 1):
   server-error-reply-without-reqmac (seeded change C11-11) TV srv (tsig/verify:accepts-invalid:mac:server-out on BADTIME / BADTRUNC replies)
   server-timersonly-not-reset   (seeded change C11-6 = C15-3) TV srv (tsig/verify:accepts-invalid:mac:server-out on the first
                                 response of a transaction that follows a multi-message answer on the same TCP connection)
+  conn-clears-reqmac-after-read (seeded change C11-17) TV conn (tsig/verify:rejects-valid:... later read: answer:conn on every API /
+                                transport; accepts-invalid:mac:conn for the reflected request / answer chained on nothing)
+  axfr-soa-alone-no-timers-switch (seeded change C11-18) CHAINS (tsig/chain:in:soa-alone-first[:soa-alone-last]:rejects-honest-envelope:*)
+  stub-defaults-not-written-back (seeded change C11-20) TV (accepts-invalid:mac:hook on "base (stub ... fudge 0)": MAC over 300, wire says 0;
+                                tsig/sign:stale-time-signed:hook on "stub time 0": wire time 1970)
+  out-hoists-signing-time       (seeded change C11-21) TV srv (tsig/sign:stale-time-signed:server-out on the late envelope)
 """
 import os, json, threading
 import vp
@@ -90,8 +116,15 @@ def chains(ctx, binp, maxlen, maxfaults, emit=True):
     path = os.path.join(r.dir, "vectors.ndjson")
     if not vecs:
         raise vp.Infra("MC_Tsig exported no chain behaviour")
-    s = ctx.run_json(binp, ["replay", path])
-    vp.absorb(ctx, s)
+    # the behaviours go through up to eight transfer layouts each (harness: chainLayouts): replayed in parallel parts
+    lines = open(path).read().splitlines(True)
+    nparts = max(1, min(PAR, 6))
+
+    def part(k):
+        pp = os.path.join(r.dir, "chains-%d.ndjson" % k)
+        open(pp, "w").writelines(lines[k::nparts])
+        vp.absorb(ctx, ctx.run_json(binp, ["replay", pp]))
+    vp.parallel([lambda k=k: part(k) for k in range(nparts)], maxpar=nparts)
     ctx.notes["chain_behaviours"] = len(vecs)
 
 
@@ -167,7 +200,13 @@ def run(ctx):
         "TSIG RDATA cut after the original-id / error / other-len field, or octets after the record: RFC 8945 does not fix the "
         "receiver's behaviour and the library's codec reads missing trailing fields as zero; no verdict asserted (codec: C01/C02)",
         "the ID of the signed message when the TSIG's original id differs from the message id: either (AMBIG)",
-        "request MACs have >= 10 octets (RFC 8945 5.2.2.1); signing time and fudge are non-zero (zero means 'fill in' to TsigGenerate)",
+        "request MACs have >= 10 octets (RFC 8945 5.2.2.1); in the generated vectors signing time and fudge are non-zero (zero means "
+        "'fill in' to TsigGenerate): the fill-in stubs are covered by the recorder, judged on the octets the signer emitted",
+        "which request MAC a dns.Conn gives the second and later signed requests written on the same Conn value (the library chains "
+        "them on the previous request's MAC, RFC 8945 5.1 signs a request over message + variables only) is outside the statement "
+        "(generation / verification 'under the same request MAC'): recorded in the evidence notes, not judged; the reads of such a "
+        "transaction are judged against the MAC of the request as written",
+        "an unsigned request written on a Conn after a signed one: the statement does not say which request MAC holds; not produced",
         "the library's secret table is keyed by spelling: acceptance of a valid MAC is asserted when the key name on the wire is "
         "spelled as in the table, or through TsigVerify (one secret); rejection is never a violation of the statement",
         "BADSIG/BADKEY responses (unsigned by RFC 8945 5.3.2) are outside the universe",
@@ -184,7 +223,14 @@ def replay(ctx, path):
     binp = ctx.build("tsig")
     rp = json.load(open(path))
     case = rp["case"]
-    if isinstance(case, dict) and case.get("ev") in ("verify", "env"):
+    if isinstance(case, dict) and case.get("ev") == "cr":
+        # a read on a client connection depends on what the connection wrote and read before: the transactions are recorded
+        # again (same recorder, a few hundred connections) and judged; the discrepancy is present if its key shows up again
+        out = os.path.join(ctx.out, "conn.ndjson")
+        ctx.run_json(binp, ["record", "conn", out, "400"], env={"VERIF_SEED": str(rp.get("seed", ctx.seed))})
+        s = judge_trace(ctx, binp, out)
+        bad = any(m["key"] == rp["key"] for m in s["mismatches"]) or any(c["key"] == rp["key"] for c in ctx.cands)
+    elif isinstance(case, dict) and case.get("ev") in ("verify", "env"):
         ein = os.path.join(ctx.out, "event.ndjson")
         eout = os.path.join(ctx.out, "event-re.ndjson")
         vp.write_ndjson(ein, [case])
